@@ -80,11 +80,48 @@ class FunctionReport:
         return [r for r in self.results if r.status == 'unknown']
 
 
+def struct_to_plain(v):
+    """z3 value of the Struct datatype -> nested lists / strings."""
+    name = v.decl().name()
+    if name == 'leaf':
+        a = v.arg(0)
+        return a.as_string() if z3.is_string_value(a) else 'x'
+    if name == 'num':
+        a = v.arg(0)
+        return str(a.as_long()) if z3.is_int_value(a) else '0'
+    if name == 'tup':
+        return seq_to_plain(v.arg(0))
+    return 'x'
+
+
+def seq_to_plain(s):
+    k = s.decl().kind()
+    if k == z3.Z3_OP_SEQ_EMPTY:
+        return []
+    if k == z3.Z3_OP_SEQ_UNIT:
+        return [struct_to_plain(s.arg(0))]
+    if k == z3.Z3_OP_SEQ_CONCAT:
+        out = []
+        for i in range(s.num_args()):
+            out.extend(seq_to_plain(s.arg(i)))
+        return out
+    return []
+
+
+def plain_to_sexpr(x):
+    if isinstance(x, str):
+        return x if x != '' else '||'
+    return '(' + ' '.join(plain_to_sexpr(y) for y in x) + ')'
+
+
 def model_to_dict(m):
     out = {}
     for d in m.decls():
         try:
             v = m[d]
+            if d.arity() == 0 and v.sort().name() == 'Struct':
+                out[d.name()] = {'sexpr': struct_to_plain(v)}
+                continue
             if z3.is_string_value(v):
                 out[d.name()] = v.as_string()
             elif z3.is_int_value(v):
@@ -182,7 +219,9 @@ class Explorer:
             except PathAbort:
                 report.aborted_paths += 1
             except Unsupported as u:
-                report.unsupported.append(str(u))
+                report.unsupported.append(f'{u} (at {sym.LAST_LINE})')
+                if os.environ.get('PYVC_TB'):
+                    report.unsupported.append(traceback.format_exc()[-3000:])
                 report.paths += 1
             except RecursionError:
                 report.unsupported.append('recursion limit in engine')
